@@ -1,7 +1,6 @@
 use std::collections::{BTreeMap};
 use std::borrow::Cow;
 
-use crate::resolve::IdMap;
 use crate::pos::{Sp, FileId};
 use crate::game::{Game, LanguageKey};
 use crate::diagnostic::{RootEmitter, Emitter};
@@ -25,7 +24,7 @@ pub struct Mapfile {
     pub timeline_ins_names: Vec<(i32, Sp<Ident>)>,
     pub timeline_ins_signatures: Vec<(i32, Sp<String>)>,
     pub difficulty_flags: Vec<(i32, Sp<String>)>,
-    pub enums: IdMap<Sp<Ident>, Vec<(i32, Sp<Ident>)>>,
+    pub enums: indexmap::IndexMap<Sp<Ident>, Vec<(i32, Sp<Ident>)>>,
 
     /// Indicates that this mapfile contains builtin definitions.
     ///
